@@ -71,3 +71,37 @@ def shash(s: str) -> str:
 
 class CaseTimeout(BaseException):
     """raised by the per-case SIGALRM watchdog (inconclusive, never a verdict)"""
+
+
+def install_speedups():
+    """Harness-side memoisation of pysmt's solver discovery.
+
+    exo creates a pysmt Factory for every solver instance; the Factory re-imports
+    the (absent) msat/cvc/yices/... back ends every time (~0.18 s).  The set of
+    installed solvers cannot change during a run, so it is computed once.  This
+    touches a third-party library from the harness only; exo's answers are the same."""
+    try:
+        import pysmt.factory as F
+    except Exception:
+        return
+    if getattr(F.Factory, "_vf_memo", False):
+        return
+    cache = {}
+
+    def memo(name, attrs):
+        orig = getattr(F.Factory, name)
+
+        def wrapper(self):
+            if name not in cache:
+                orig(self)
+                cache[name] = {a: dict(getattr(self, a)) for a in attrs}
+            else:
+                for a, v in cache[name].items():
+                    setattr(self, a, dict(v))
+
+        setattr(F.Factory, name, wrapper)
+
+    memo("_get_available_solvers", ["_all_solvers", "_all_unsat_core_solvers"])
+    memo("_get_available_qe", ["_all_qelims"])
+    memo("_get_available_interpolators", ["_all_interpolators"])
+    F.Factory._vf_memo = True
